@@ -191,8 +191,127 @@ def _run_case(item):
     return PROBES[item[0]](item[1])
 
 
+def _davidson_record(inp):
+    """run the REAL rcis_batch and record, per iteration and molecule, which roots are above tolerance and how many
+    expansion vectors survived orthogonalisation; plus the bookkeeping the routine reports"""
+    import re
+
+    import torch
+
+    import seqm.seqm_functions.rcis_batch as R
+
+    rec = {"resid": [], "kept": [], "maxsub": None, "nstart": None, "nroots": None}
+    o_norm, o_orth, o_max, o_guess = torch.linalg.vector_norm, R.orthogonalize_to_current_subspace, R.getMaxSubspacesize, R.make_guess
+    tol = inp.get("tolerance", 1e-8)
+
+    def w_norm(x, *a, **k):
+        out = o_norm(x, *a, **k)
+        if k.get("ord", None) == torch.inf and k.get("dim", None) == 2:
+            rec["resid"].append((out > tol).to(torch.int64).tolist())
+            rec["kept"].append({})
+        return out
+
+    def w_orth(V, newsubspace, vend, vtol):
+        ret = o_orth(V, newsubspace, vend, vtol)
+        rec["kept"][-1][len(rec["kept"][-1])] = int(ret) - int(vend)
+        return ret
+
+    def w_max(*a, **k):
+        v = o_max(*a, **k)
+        if inp.get("maxsub"):
+            v = min(int(v), int(inp["maxsub"]))
+        rec["maxsub"] = int(v)
+        return v
+
+    def w_guess(approxH, nroots, maxSub, V, nmol, nov):
+        ns, nr = o_guess(approxH, nroots, maxSub, V, nmol, nov)
+        rec["nstart"], rec["nroots"], rec["nov"], rec["nmol"] = int(ns), int(nr), int(nov), int(nmol)
+        return ns, nr
+    torch.linalg.vector_norm, R.orthogonalize_to_current_subspace, R.getMaxSubspacesize, R.make_guess = w_norm, w_orth, w_max, w_guess
+    buf = io.StringIO()
+    try:
+        sp = esh.settings(method=inp.get("method", "AM1"), eps=1e-11, converger=[1], excited={"n_states": inp["n_states"], "method": "cis", "tolerance": tol})
+        s, x, ch, mu = esh.batch(inp["names"])
+        from seqm.ElectronicStructure import Electronic_Structure
+        from seqm.Molecule import Molecule
+        from seqm.seqm_functions.constants import Constants
+        with contextlib.redirect_stdout(buf):
+            mol = Molecule(Constants(), sp, torch.as_tensor(x), torch.as_tensor(s))
+            es = Electronic_Structure(sp)
+            mol.verbose = True
+            es(mol)
+        outcome = "returned"
+    except Exception as e:
+        outcome = "raised:" + str(e)[:60]
+    finally:
+        torch.linalg.vector_norm, R.orthogonalize_to_current_subspace, R.getMaxSubspacesize, R.make_guess = o_norm, o_orth, o_max, o_guess
+    m = re.search(r"Number of davidson iterations: tensor\(\[([0-9, ]+)\]\), number of subspace collapses: tensor\(\[([0-9, ]+)\]\)", buf.getvalue())
+    rec["n_iters"] = [int(v) for v in m.group(1).split(",")] if m else None
+    rec["n_coll"] = [int(v) for v in m.group(2).split(",")] if m else None
+    rec["outcome"] = outcome
+    return rec
+
+
+def corr_davidson(ctx: Ctx, drv):
+    rng = ctx.rng
+    cases = [{"names": ["h2o"], "n_states": 3}, {"names": ["ch2o", "ch2o"], "n_states": 4}, {"names": ["nh3"], "n_states": 5, "maxsub": 8}, {"names": ["nh3"], "n_states": 3, "maxsub": 7}]
+    if ctx.thorough:
+        cases += [{"names": [str(rng.choice(["hcn", "co", "h2s", "ch4"]))], "n_states": int(rng.integers(1, 6)), "method": str(rng.choice(["AM1", "PM3"])),
+                   "maxsub": int(rng.choice([0, 6, 10]))} for _ in range(6)]
+    for c, rec in zip(cases, mdh.pmap(_davidson_record, cases, nproc=4)):
+        if isinstance(rec, Exception) or rec is None or rec.get("nstart") is None:
+            ctx.obligation("davidson recording evaluated", False, repr(rec)[-1000:], kind="harness")
+            continue
+        nmol, nroots, niter = rec["nmol"], rec["nroots"], len(rec["resid"])
+        toks = ["davidson", nmol, nroots, rec["nstart"], rec["maxsub"], rec["nov"], 200, 0, niter]
+        for it in range(niter):
+            # kept counts are recorded in the order molecules were orthogonalised (ascending molecule index among the not-done ones)
+            active = []
+            for mi in range(nmol):
+                active.append(mi)
+            kept_list = list(rec["kept"][it].values())
+            ki = 0
+            for mi in range(nmol):
+                r = rec["resid"][it][mi][:nroots]
+                k = 0
+                if any(r) and ki < len(kept_list):
+                    # a molecule with unconverged roots that is not done gets orthogonalised; done molecules are skipped by the routine,
+                    # their data is ignored by the model as well, so a zero is supplied
+                    k = kept_list[ki] if _not_done_yet(rec, it, mi) else 0
+                    ki += 1 if _not_done_yet(rec, it, mi) else 0
+                toks += [max(k, 0)] + r
+        ans = drv.ask(*toks)
+        ok = False
+        if ans and ans[0] == "returned" and rec["outcome"] == "returned" and rec["n_iters"] is not None:
+            st = [a.split(",") for a in ans[2:]]
+            ok = len(st) == nmol and all(int(st[m_][4]) == rec["n_iters"][m_] and int(st[m_][3]) == rec["n_coll"][m_] and st[m_][0] in ("1", "true") for m_ in range(nmol))
+        if ans and ans[0] == "nomem" and rec["outcome"].startswith("raised:Insufficient memory"):
+            ok = True
+        if ans and ans[0] == "maxiter" and rec["outcome"].startswith("raised:Maximum iterations"):
+            ok = True
+        ctx.corr_case("rcis_batch Davidson control flow (recorded)", {"names": c["names"], "n_states": c["n_states"], "maxsub": rec["maxsub"], "iterations": niter},
+                      ans[:6], {"outcome": rec["outcome"], "n_iters": rec["n_iters"], "n_coll": rec["n_coll"]}, ok, stratum="collapse" if rec["n_coll"] and max(rec["n_coll"]) > 0 else "plain")
+
+
+def _not_done_yet(rec, it, mi):
+    """a molecule is done once all its roots were below tolerance in an earlier (or this) iteration"""
+    for j in range(it + 1):
+        if not any(rec["resid"][j][mi]):
+            return False
+    return True
+
+
 def run(ctx: Ctx):
     leanproj.check_theorems(ctx, MODULE, THEOREMS)
+    drv = leanproj.Driver()
+    try:
+        try:
+            corr_davidson(ctx, drv)
+        except Exception:
+            import traceback
+            ctx.obligation("correspondence adapters C16 ran", False, traceback.format_exc()[-1500:], kind="harness")
+    finally:
+        drv.close()
     cases = gen_cases(ctx)
     results = mdh.pmap(_run_case, cases, timeout=2400)
     for (name, c), r in zip(cases, results):
